@@ -62,16 +62,21 @@ RelOf(t) == RelFor(cfg.R, t, cfg.user, cfg.owner)
 Base(name, v, r, klen, em, cf, stmf, strf) ==
     [name |-> name, V |-> v, R |-> r, klen |-> klen, em |-> em, cf |-> cf, stmf |-> stmf, strf |-> strf]
 
-IdEntry(idcf) == IF idcf THEN << <<"Identity", "Identity">> >> ELSE <<>>
-Nm(m, f) == IF m = "Identity" THEN "Identity" ELSE f
-Real(m, dflt) == IF m = "Identity" THEN dflt ELSE m
+\* How an Identity default filter is given (IdCfs): "none" - StmF / StrF name the standard filter /Identity, CF has no
+\* entry for it; "entry" - the same with an entry /Identity in CF; "custom" - the crypt filter map holds an Identity
+\* filter under a CUSTOM name (F1 / F2) that StmF / StrF name
+IdEntry(idcf) == IF idcf = "entry" THEN << <<"Identity", "Identity">> >> ELSE <<>>
+Nm(m, f, idcf) == IF m = "Identity" /\ idcf # "custom" THEN "Identity" ELSE f
+Real(m, dflt, idcf) == IF m = "Identity" THEN (IF idcf = "custom" THEN "Identity" ELSE dflt) ELSE m
 
-CfgV4 == {Base("V4", 4, 4, 128, em, << <<"F1", Real(sm, "AES128")>>, <<"F2", Real(tm, "AES128")>> >> \o IdEntry(ic), Nm(sm, "F1"), Nm(tm, "F2")) :
+CfgV4 == {Base("V4", 4, 4, 128, em, << <<"F1", Real(sm, "AES128", ic)>>, <<"F2", Real(tm, "AES128", ic)>> >> \o IdEntry(ic), Nm(sm, "F1", ic), Nm(tm, "F2", ic)) :
             sm \in V4Stm, tm \in V4Str, em \in EMs, ic \in IdCfs}
-CfgV5 == {Base(k, 5, IF k = "R5" THEN 5 ELSE 6, 256, em, << <<"F1", "AES256">>, <<"F2", "AES256">> >> \o IdEntry(ic), Nm(sm, "F1"), Nm(tm, "F2")) :
+CfgV5 == {Base(k, 5, IF k = "R5" THEN 5 ELSE 6, 256, em, << <<"F1", Real(sm, "AES256", ic)>>, <<"F2", Real(tm, "AES256", ic)>> >> \o IdEntry(ic), Nm(sm, "F1", ic), Nm(tm, "F2", ic)) :
             k \in V5Kinds, sm \in V5Flt, tm \in V5Flt, em \in EMs, ic \in IdCfs}
 CfgV12 == {Base("V1", 1, 2, 40, TRUE, <<>>, "", "")} \cup {Base("V2", 2, 3, n, TRUE, <<>>, "", "") : n \in V2Lens}
 \* an Identity entry in CF only matters when some default filter is Identity
+\* (an Identity entry, or the choice "custom", only matters when some default filter is Identity: CfgSet is a set, the
+\* configurations that come out equal are one)
 Redundant(c) == \E i \in 1..Len(c.cf) : c.cf[i][1] = "Identity" /\ c.stmf # "Identity" /\ c.strf # "Identity"
 CfgSet == {c \in CfgV12 \cup CfgV4 \cup CfgV5 : ~Redundant(c)}
 
@@ -101,10 +106,10 @@ DocOf(d) ==
                         Stream("-", NoCrypt, << Str("s4", 24), Arr(<< Str("s5", 17) >>) >>, "t1", 40),
                         Stream("Metadata", NoCrypt, << Str("s6", 18) >>, "t2", 30) >>
       [] d = "D2" -> << Stream("-", Cr("name", "F2"), <<>>, "t3", 33),
-                        Stream("-", Cr("name", "Identity"), <<>>, "t4", 20),
+                        Stream("-", Cr("name", "Identity"), << Str("s14", 19) >>, "t4", 20),
                         Stream("-", Cr("arr", "F2"), <<>>, "t5", 48) >>
-      [] d = "D3" -> << Stream("-", Cr("nodp", ""), <<>>, "t6", 20),
-                        Stream("-", Cr("noname", ""), <<>>, "t7", 21),
+      [] d = "D3" -> << Stream("-", Cr("nodp", ""), << Str("s15", 17) >>, "t6", 20),
+                        Stream("-", Cr("noname", ""), << Arr(<< Str("s16", 16) >>) >>, "t7", 21),
                         Stream("XRef", NoCrypt, << Str("s7", 18) >>, "t8", 22) >>
       [] d = "D4" -> << Stream("-", NoCrypt, <<>>, "e", 0),
                         Dict("Metadata", << Str("s8", 19) >>),
@@ -117,6 +122,10 @@ DocOf(d) ==
                                       XRefStm("x1", 42) >>)
       \* a Crypt override whose decode parameters are the indirect object that follows the stream
       [] d = "D7" -> << Stream("-", [f |-> "name", n |-> "F2", ind |-> TRUE], <<>>, "t11", 34), Other >>
+      \* Identity overrides through a name CF does not have, and in the array form, with strings in the dictionaries
+      [] d = "D8" -> << Stream("-", Cr("name", "Zz"), << Str("s17", 18) >>, "t12", 23),
+                        Stream("-", Cr("arr", "Identity"), << Str("s18", 20) >>, "t13", 32),
+                        Dict("-", << Str("s19", 16) >>) >>
       \* loaded from a file with an xref stream, no object streams
       [] d = "D6" -> << Dict("-", << Str("m4", 22) >>),
                         Stream("-", NoCrypt, << Str("s13", 16) >>, "t10", 19),
@@ -150,7 +159,7 @@ EditPos(d) == IF d = "D5" THEN {1, 3} ELSE IF d = "D6" THEN {1} ELSE {}
 \* Prune = TRUE: not the full product - every configuration x every document with the pair <<"A","B">>, and every
 \* password pair on document D1 with one configuration per revision class (passwords do not interact with the walk)
 \* (the loaded-from-file documents, whose edits multiply the states, also with one configuration per revision class)
-Rep(b) == b.em /\ b.stmf # "Identity" /\ b.strf # "Identity" /\ b.klen \in {40, 128, 256} /\ (b.V = 4 => b.cf[1][2] = b.cf[2][2])
+Rep(b) == b.em /\ b.stmf # "Identity" /\ b.strf # "Identity" /\ b.klen \in {40, 128, 256} /\ (b.V = 4 => b.cf[1][2] = b.cf[2][2]) /\ (b.cf # <<>> => b.cf[1][2] # "Identity")
 Combo(b, p, d) ==
     Prune => \/ p = <<"A", "B">> /\ (d \in FileDocs => Rep(b))
              \/ d = "D1" /\ Rep(b)
